@@ -33,6 +33,8 @@ func (m monC05) Key() string {
 type dkgHooks struct {
 	onState      func(ex *explorer, s *exState)
 	onTransition func(ex *explorer, s *exState, ev *exEvent, res *exResult, mon monC05) (monC05, bool)
+	// setup, if set, configures the node before the exploration starts
+	setup func(ex *explorer)
 }
 
 func fakeKey(tag string, p int) []byte {
@@ -61,6 +63,9 @@ func exploreDKG(c *Ctx, n, t int, hooks dkgHooks, maxStates int) (states, transi
 	h := sha256.Sum256([]byte(fmt.Sprintf("round-%d-%d", n, t)))
 	round := hex.EncodeToString(h[:])
 	ex := &explorer{W: w, Node: w.Nodes[0], Round: round}
+	if hooks.setup != nil {
+		hooks.setup(ex)
+	}
 	t0 := now() // the node stamps phase deadlines with its own wall clock, so "late" must be relative to it
 	a := &alphabetCtx{W: w, Round: round, T0: t0, N: n}
 	alphabet := a.dkgAlphabet(fakeKey("master", 0), fakeKey("master", 1), []byte(`{"commitments":["AA=="]}`))
@@ -117,7 +122,7 @@ func exploreDKG(c *Ctx, n, t int, hooks dkgHooks, maxStates int) (states, transi
 }
 
 func checkC05(c *Ctx) {
-	c.Rule = "breadth-first exploration of the real BaseNodeService.ProcessMessage (node 0, in-memory state store) over the public event alphabet {init, confirm, decline, commit, deal, response, master key, the four error reports, signing proposal} x participant ids {0..n-1, n, 99} x variants {valid, late-timestamped, empty payload, mismatching key, duplicate (= same event again)} to a fixpoint of (public projection of the round, monitor state), for every (n,t) in the tier's bound. History monitors M1 (exactly-once, in phase order, by invited participants; signing-ready only after all five phases), M2 (cancelled never becomes signing-ready), M3 (rejected => round, operation pool and signature store unchanged), M4 (decline / error / late / differing key accepted => cancelled), M5 (a well-formed timely failure report or decline by a participant whose contribution of the running phase is awaited is not refused). distinct = distinct abstract states reached"
+	c.Rule = "breadth-first exploration of the real BaseNodeService.ProcessMessage (node 0, in-memory state store) over the public event alphabet {init, confirm, decline, commit, deal, response, master key, the four error reports, signing proposal} x participant ids {0..n-1, n, 99} x variants {valid, late-timestamped, empty payload, mismatching key, duplicate (= same event again)} to a fixpoint of (public projection of the round, monitor state), for every (n,t) in the tier's bound. History monitors M1 (exactly-once, in phase order, by invited participants; signing-ready only after all five phases), M2 (cancelled never becomes signing-ready), M3 (rejected => round, operation pool and signature store unchanged), M4 (decline / error / late / differing key accepted => cancelled), M5 (a well-formed timely failure report or decline by a participant whose contribution of the running phase is awaited is not refused). The alphabet also holds late-stamped messages of uninvited ids and same-instant duplicates with other content; a second exploration runs on a node with the daemon's --skip_comm_keys_verification on (the round's own rules decide alone). distinct = distinct abstract states reached"
 	c.Assumptions = []string{"MemState substituted for LevelDB (same Get/Set semantics)", "explored from one node's point of view: deals are the per-recipient ones plus the self-confirmation", "messages are harness-built and signed with the claimed participant's registered key (unknown ids are claimed by a legitimate sender)", "a missing round and a freshly created idle round are treated as the same round state (byte-exactness of rejected input is C18's subject)"}
 	maxN := c.Pick(3, 4)
 	c.Exhaustive = true
@@ -130,14 +135,22 @@ func checkC05(c *Ctx) {
 	if c.Thorough() {
 		cfgs = append(cfgs, ntCase{5, 2}, ntCase{5, 5})
 	}
+	// the same exploration on a node started with --skip_comm_keys_verification (a documented daemon flag):
+	// nothing in front of the round's state machine filters messages by sender, the round's own rules decide
+	plain := len(cfgs)
+	cfgs = append(cfgs, ntCase{2, 2})
+	if c.Thorough() {
+		cfgs = append(cfgs, ntCase{3, 2}, ntCase{3, 3})
+	}
 	Parallel(len(cfgs), 8, func(ci int) {
 		{
 			n, t := cfgs[ci].N, cfgs[ci].T
+			unverified := ci >= plain
 			readySeen := 0
 			cancelledSeen := map[string]bool{}
 			hooks := dkgHooks{onTransition: func(ex *explorer, s *exState, ev *exEvent, res *exResult, mon monC05) (monC05, bool) {
 				wit := func() interface{} {
-					return map[string]interface{}{"n": n, "t": t, "path": s.Path(), "event": ev.Label, "state_before": res.Before, "state_after": res.After, "error": fmt.Sprint(res.Err)}
+					return map[string]interface{}{"n": n, "t": t, "sender_verification_off": unverified, "path": s.Path(), "event": ev.Label, "state_before": res.Before, "state_after": res.After, "error": fmt.Sprint(res.Err)}
 				}
 				c.Eval(1)
 				if res.Err != nil && len(res.Err.Error()) > 5 && res.Err.Error()[:5] == "PANIC" {
@@ -189,6 +202,9 @@ func checkC05(c *Ctx) {
 					nm.Inited = true
 				case ev.Phase >= 0 && ev.Variant == "late" && isCancelled(res.After):
 					// the expired-deadline path: the round is cancelled, nothing is counted as a contribution
+					if !ev.Known {
+						c.Violate("C05/M1-message-of-uninvited-participant-cancelled-the-round", fmt.Sprintf("%s accepted in %s: the round is now %s although the id it names was never invited", ev.Label, res.Before, res.After), wit())
+					}
 				case ev.Phase >= 0:
 					if ev.Variant == "empty" || ev.Variant == "emptyfield" {
 						c.Violate("C05/M1-malformed-contribution-accepted", ev.Label+" in "+res.Before, wit())
@@ -238,9 +254,17 @@ func checkC05(c *Ctx) {
 				if ev.Kind == "propose" && res.Before != StIdle {
 					c.Violate("C05/M1-signing-proposal-accepted-before-ready", res.Before, wit())
 				}
-				c.Distinct(fmt.Sprintf("n%d t%d %s", n, t, oracle.Hash(res.ProjA)))
+				c.Distinct(fmt.Sprintf("n%d t%d %v %s", n, t, unverified, oracle.Hash(res.ProjA)))
 				return nm, true
 			}}
+			if unverified {
+				hooks.setup = func(ex *explorer) {
+					if sk, ok := ex.Node.Svc.(interface{ SetSkipCommKeysVerification(bool) }); ok {
+						sk.SetSkipCommKeysVerification(true)
+						c.Add("explorations_without_sender_verification", 1)
+					}
+				}
+			}
 			st, tr, complete := exploreDKG(c, n, t, hooks, c.Pick(20000, 400000))
 			c.Add("states", st)
 			c.Add("transitions", tr)
